@@ -186,3 +186,6 @@ def run(check, ctx):
                                  lambda v: {"dict": ("kwargs", "domain", v)}, base={"kwargs": {}},
                                  models=tm, extra_points=(0x7F, 0x80, 0x1F), cite="TurboSHAKE: D in 0x01..0x7F"))
     check.floor("G", 14)
+    # a MAC object copied mid-message continues independently (HMAC, CMAC and the hash family)
+    from .c19_extra import copy_rules
+    copy_rules(check, repo)
